@@ -51,6 +51,9 @@ func TestMain(m *testing.M) {
 
 type stats struct {
 	lookups, nonEmpty, mapForm, reorgs, toggles, emptiedAndRepaid, restored, foreign, cutSaves, reloads int
+	// an address that held >= UseMapCnt outputs (map form) and is now down to 1..UseMapCnt/4 of them
+	shrunkFromMap int
+	peak          map[string]int
 }
 
 // addrOf builds the address object for an address-shaped script with the reference decoder's view.
@@ -361,7 +364,7 @@ func genCase(t *rapid.T, p sim.Profile) Case {
 		}
 	}
 	c.MinValue = rapid.SampledFrom([]uint64{0, 1, 1000, 100000, 50000000, 2500000000}).Draw(t, "minvalue")
-	c.UseMapCnt = uint32(rapid.SampledFrom([]int{2, 3, 3, 5, 200}).Draw(t, "usemapcnt"))
+	c.UseMapCnt = uint32(rapid.SampledFrom([]int{2, 3, 4, 4, 5, 5, 8, 200}).Draw(t, "usemapcnt"))
 	c.StartOn = rapid.IntRange(0, 3).Draw(t, "starton") != 0
 	return c
 }
@@ -417,6 +420,9 @@ func TestBalances(t *testing.T) {
 		}
 		if st.mapForm > 0 {
 			r.Class("map_form_reached")
+		}
+		if st.shrunkFromMap > 0 {
+			r.Class("address_shrunk_from_map_form_to_a_quarter")
 		}
 		if st.toggles > 1 {
 			r.Class("index_toggled")
